@@ -28,6 +28,21 @@ checks = {
    technique="exhaustive enumeration of all 1-bit, 2-bit and <=16-bit burst error patterns at all positions (both bit orders) on real SerialEncode output, decided by the real SerialDecode; full product round trip over seq x subject x point lists",
    text="Every error pattern of the stated classes is applied to packets of every documented subject form and decoded by the real code: an accepted packet with different content is a violation. The only undetected patterns are the six p.<c> subjects within a 16-bit burst of 'log' (known findings); any other escape is reported.",
    note="Representative packets (payload 0..2 points) rather than all payloads: CRC detection of bursts <=16 is independent of content, the log bypass depends only on the subject, and all printable p.<c> subjects are enumerated in thorough."),
+ "C14": dict(
+   category="exploration", design_ref="DESIGN.md §3 C14",
+   technique="exhaustive enumeration of (start,end) minute pairs x weekday/date filters x boundary instants through the real unexported schedule.activeForTime (in-package test injected by go test -overlay), compared with an independent integer interval model of the statement",
+   text="Quick: a 13x13 boundary-minute grid x 11 weekday sets x 8 date lists x days holding week, month and year ends and a leap day x 15 instants per day (+-1 s and +-1 ns around every edge) x 4 time zones, plus every 7th start minute x all 1440 end minutes x single-weekday filters. Thorough: all 1440^2 pairs. Exhaustive within those grids.",
+   note="The model is the property statement computed with integer arithmetic on UTC seconds; date lists are well-formed."),
+ "C18": dict(
+   category="exploration", design_ref="DESIGN.md §3 C18",
+   technique="exhaustive enumeration of request PDUs (all 256 function codes x all data strings up to length 4/6 over a boundary byte alphabet; structured requests around every protocol limit) x 7 register maps through the real PDU.ProcessRequest on the real Regs, against a reference Modbus server written from the specification tables; write-then-read pairs",
+   text="Every enumerated request is executed on a fresh real register file under recover() and a hang watchdog; the answer must be the byte-exact normal response of the reference server, or an exception of an applicable code, and registers must be as the reference says (unchanged after an exception to a read or single write).",
+   note="Requests with trailing bytes or an inconsistent byte-count field are only checked for safety. Go error accepted only for requests shorter than the fixed header."),
+ "C19": dict(
+   category="exploration", design_ref="DESIGN.md §3 C19",
+   technique="exhaustive enumeration of client API calls (every count 1..2000 / 1..125 at an address alphabet, single writes + read back, 65 537 consecutive TCP transactions) on the real Client <-> real Server.Listen over in-memory RTU and TCP transports, against the reference register file; every single-byte substitution/truncation/transaction-id mutation of responses; all 2^32 values through the converters (thorough)",
+   text="The values and the number of values returned by every call equal the reference content; illegal reads never return data; mutated frames are rejected or yield exactly the true data; converters are exact inverses bit for bit.",
+   note="In-memory transports (packet pipe / net.Pipe) stand in for serial port and socket; the client API has no multi-write, so only the six calls it offers are driven."),
 }
 pending_reason = "check not built yet in this round (planned in DESIGN.md §3); not claimed until its harness exists"
 m = {
